@@ -300,7 +300,7 @@ class _RefContext:
         from liquer.parser import parse
 
         self.subq.append(q)
-        r = self.interp._run(parse(q))
+        r = self.interp._run(parse(q), input_value=copy.deepcopy(_kw.get("input_value")))
         if not r.ok:
             raise _SubFailed(q, r)
         return _SubState(r.value)
